@@ -58,6 +58,14 @@ func (g *Gen) Field() string {
 	return g.Fields[g.R.Intn(len(g.Fields))]
 }
 
+func (g *Gen) digits(n int) string {
+	b := make([]byte, n)
+	for i := range b {
+		b[i] = byte('0' + g.R.Intn(10))
+	}
+	return string(b)
+}
+
 func (g *Gen) letters(n int) string {
 	b := make([]byte, n)
 	for i := range b {
